@@ -82,9 +82,16 @@ fn proxy_tag(debug: &str) -> u64 {
     }
 }
 
-fn cert() -> Option<native_tls::Certificate> {
+fn cert() -> Option<attohttpc_cert::Cert> {
     let pem = std::fs::read("/repo/tests/tools/cert.pem").ok()?;
-    native_tls::Certificate::from_pem(&pem).ok()
+    crate::tlscert::from_pem(&pem)
+}
+
+mod attohttpc_cert {
+    #[cfg(feature = "backend-native")]
+    pub type Cert = native_tls::Certificate;
+    #[cfg(all(feature = "backend-rustls", not(feature = "backend-native")))]
+    pub type Cert = rustls_pki_types::CertificateDer<'static>;
 }
 
 fn set_session(s: &mut Session, f: &str, v: u64) {
